@@ -772,7 +772,7 @@ fn parent() {
     let mut out = Out::create();
     let mut rng = Rng::from_env();
     let exe = std::env::current_exe().unwrap();
-    let base = PathBuf::from(std::env::var("VERIF_WORK").unwrap_or("/verif/work".into())).join("C13").join("runs");
+    let base = PathBuf::from(std::env::var("VERIF_WORK").unwrap_or("/verif/work".into())).join("C13").join(format!("runs_{}", std::process::id()));
     let _ = std::fs::remove_dir_all(&base);
     std::fs::create_dir_all(&base).unwrap();
     // directed workloads first
